@@ -444,3 +444,8 @@ async def rf_error_storm_is_reported_and_the_ping_loop_survives(n: int):
     ensures("connection-left-alone", both(spa.is_connected, spa._protocol is not None, not spa._transport.closed))
     ensures("ping-loop-not-cancelled", not c10_leaks.Net.tasks[0].cancelled)
     cover("past-the-limit", too_many)
+
+
+# a reset cancels the tasks of the spa's domain ("SPA:") and never the manager's own ("SPAMAN:Sequence Pump") -- shared with C10
+harness(prop="C09", target="geckolib.async_tasks:AsyncTasks.cancel_key_tasks", name="reset_never_cancels_the_sequence_pump",
+        bounded="task registries of 0..4 entries")(c10_leaks.keyed_cancellation_reaches_every_live_task_of_the_domain)
